@@ -395,4 +395,23 @@ example : Gen.C06F.optimize_slicer (.slice (.int 8) .none (.int (-3))) (.int 10)
       (.int 4) (liftH (fun _ _ _ => .contiguous))
     = .ok (.tup2 (.slice (.int 2) (.int 9) (.int 1)) (.slice .none .none (.int (-3)))) := by decide
 
+open Nb.Py in
+/-- **T7** the translated `optimize_read_slicers` — a Python `for` loop with `continue`, list appends and
+    a running stride / all_full state — computes the model's `optimizeLoop` for EVERY list of canonical
+    items, shape, item size and heuristic, including the errors (too many indices; int + contiguous). -/
+theorem source_optimize_read_slicers_eq (h : Heuristic) (items : List Item) (shape : List Nat) (isz : Nat)
+    (hv : ItemsValid items) :
+    Gen.C06F.optimize_read_slicers (V.ofList (items.map ofItem)) (ofShape shape) (.int (isz : Int)) (liftH h) =
+      match optimizeLoop h items shape isz true with
+      | .ok (rs, ps) => .ok (.tup2 (V.ofList (rs.map ofRead)) (V.ofList (ps.map ofPost)))
+      | .error e => .error (mapErr e) :=
+  gen_optimize_read_slicers_eq h items shape isz hv
+
+open Nb.Py in
+example : Gen.C06F.optimize_read_slicers
+      (V.ofList [.slice (.int 1) .none (.int 2), .none, .int 2]) (ofShape [5, 3]) (.int 2)
+      (liftH (fun _ _ _ => .skip))
+    = .ok (.tup2 (V.ofList [.slice (.int 1) (.int 5) (.int 2), .none, .int 2])
+                 (V.ofList [.slice .none .none .none, .slice .none .none .none])) := by decide
+
 end Nb.C06
